@@ -259,7 +259,6 @@ for _pid, _txt in [
             'algebra, design-side fit'),
     ('C07', 'iROAS summary coherence, scenario label, determinism, '
             'equivariance'),
-    ('C08', 'all set/read histories up to the bound vs a fresh object'),
     ('C18', 'effect series well-formedness vs recomputation'),
     ('C19', 'screened data / analysis data vs plain recomputation'),
     ('C20', 'expanded day lists vs a datetime.date oracle'),
@@ -295,6 +294,33 @@ define(
     'DESIGN.md section 7, C17',
     'Proof modulo the dataclass/typing ledger and engine soundness; the '
     'documented domain is transcribed from the class docstring.')
+
+define(
+    'C08', 'proof',
+    [('tbrmmdiagnostics', None, False)],
+    ['pyvc symbolic executor and its encodings (engine soundness)',
+     'z3 5.1 / cvc5 1.0.3',
+     'NumPy / SciPy calls are deterministic functions of their arguments '
+     '(numeric ledger); numpy.array of a 1-d float array is an equal array; '
+     'slices have Python slice length',
+     'functools.lru_cache is transparent for the two pure helper methods '
+     '(inlined); namedtuple construction/unpacking',
+     'accepted parameter objects (domain proved by C17)'],
+    ['floats are reals (no NaN propagation: numpy.isnan is an uninterpreted '
+     'predicate)', '__repr__ (prints raw cache fields) is not among the '
+     'reported quantities'],
+    'Class invariant "every cache is empty or holds the value a fresh object '
+    'computes from the current series" with the spec functions DEFINED by a '
+    'ghost execution of each getter from the fresh state; every getter '
+    '(corr, required_impact, pretestfit, bbtest, dwtest, aatest, corr_test, '
+    'tests_ok, tbrfit, estimate_required_impact) is proved to return the '
+    'fresh value from any invariant state and to re-establish the invariant, '
+    'both setters and the constructor establish it - for all series, '
+    'parameters and call histories.  The exhaustive bounded history monitor '
+    'is an independent cross-check.',
+    'DESIGN.md section 7, C08',
+    'Proof modulo the numeric ledger (determinism of library calls) and '
+    'engine soundness; bounded monitor not counted as proved.')
 
 DEFS['C18'].IGNORED_REGIONS = ('C18:dates-outside-experiment',)
 DEFS['C07'].IGNORED_REGIONS = ('C07:scenario-flips-under-cost-rescaling',)
